@@ -48,6 +48,11 @@ def run(chk, ctx) -> None:
     c11.run(StreetColumn(chk, 'C03.caps', 'caps', 6, 'the number of bets and raises a street of the variant allows (4 in fixed-limit games, '
                                                      'unlimited otherwise), the same on every street'), ctx)
     chk.floor('C03.caps', 12)
+    # "the player to act": who opens a round (the match over the opening rule in _begin_betting, anchored here too) is C13's table
+    from . import c13
+    from .helpers import Refile
+    c13.run(Refile(chk, {'C13.table': 'C03.opener'}), ctx)
+    chk.floor('C03.opener', 5)
     _amounts(chk, ctx)
     _max_amount(chk, ctx)
     _refusals(chk, ctx)
